@@ -11,5 +11,7 @@ import (
 // harnesses drive consensus timeouts deterministically. It must be called
 // before Start.
 func VerifSetTimer(s Service, t dbft.Timer) {
-	s.(*service).dbft.Timer = t
+	d := s.(*service).dbft
+	d.Timer = t
+	d.Context.Config.Timer = t
 }
